@@ -1,0 +1,30 @@
+//go:build verif
+
+package req
+
+// Verification hooks for property C04 (HTTP/1.1 response parsing agrees with net/http).
+// Add-only; compiled only with -tags verif.
+
+import (
+	"bufio"
+	"io"
+	"net/http"
+)
+
+// VerifC04ReadResponse runs the HTTP/1.1 response reader of this package
+// (persistConn._readResponse: status line, MIME header, readTransfer) on br for a
+// request with the given method. When dumpTo is non-nil a synchronous dumper for
+// response header and body is installed on the transport, which selects the dumping
+// readLine variant of textprotoReader.
+func VerifC04ReadResponse(br *bufio.Reader, method string, dumpTo io.Writer) (*http.Response, error) {
+	t := &Transport{}
+	if dumpTo != nil {
+		t.Dump = newDumper(&DumpOptions{Output: dumpTo, ResponseHeader: true, ResponseBody: true})
+	}
+	pc := &persistConn{t: t, br: br}
+	req := &http.Request{Method: method, Header: http.Header{}}
+	return pc._readResponse(req)
+}
+
+// VerifC04IsNoBody reports whether rc is this package's NoBody sentinel.
+func VerifC04IsNoBody(rc io.ReadCloser) bool { return rc == NoBody }
